@@ -53,7 +53,7 @@ func init() {
 				w.rl.DecomposeNTT(lvl, w.rp.MaxLevelP(), w.rp.PCount(), a.Value[1], a.IsNTT, w.rl.BuffDecompQP)
 				return nil, w.rl.AutomorphismHoisted(lvl, a, w.rl.BuffDecompQP, galAuto(w.env, arg)[0], out)
 			}},
-		&opDesc{name: "ApplyEvaluationKey", scheme: "rlwe", aDegs: d1, natural: natSame,
+		&opDesc{impl: "rlwe.ApplyEvaluationKey", name: "ApplyEvaluationKey", scheme: "rlwe", aDegs: d1, natural: natSame,
 			call: func(w *W, a *CT, b any, out *CT, arg [3]int) (*CT, error) {
 				return nil, w.rl.ApplyEvaluationKey(a, w.swk, out)
 			}},
@@ -63,11 +63,11 @@ func init() {
 			call: func(w *W, a *CT, b any, out *CT, arg [3]int) (*CT, error) {
 				return nil, w.rl.Trace(a, traceLogN(w.env, arg), out)
 			}},
-		&opDesc{name: "PartialTracesSum", scheme: "rlwe", aDegs: d1, natural: natSame, gal: galInnerSum,
+		&opDesc{impl: "rlwe.PartialTracesSum", name: "PartialTracesSum", scheme: "rlwe", aDegs: d1, natural: natSame, gal: galInnerSum,
 			call: func(w *W, a *CT, b any, out *CT, arg [3]int) (*CT, error) {
 				return nil, w.rl.PartialTracesSum(a, arg[0], arg[1], out)
 			}},
-		&opDesc{name: "Replicate", scheme: "rlwe", aDegs: d1, natural: natSame, gal: galReplicate,
+		&opDesc{impl: "rlwe.PartialTracesSum", name: "Replicate", scheme: "rlwe", aDegs: d1, natural: natSame, gal: galReplicate,
 			call: func(w *W, a *CT, b any, out *CT, arg [3]int) (*CT, error) {
 				return nil, w.rl.Replicate(a, arg[0], arg[1], out)
 			}},
